@@ -319,6 +319,80 @@ Lemma rl_no_stuck_waiter_proof (G : op -> Prop) s : reachable G s ->
     exists p, lookup_pend w (pend s) = Some p /\ conflict p e.
 Proof. intros Hr. destruct (reachable_winv G s Hr) as [_ _ Hc]. exact Hc. Qed.
 
+(* ------------------------------------------------- quiescence and hand-over ---- *)
+Lemma lookup_pend_unique t p l : NoDup (map fst l) -> In (t, p) l -> lookup_pend t l = Some p.
+Proof.
+  induction l as [|[u q] tl IH]; cbn; intros Hn Hin; [destruct Hin|].
+  inversion Hn as [|? ? Hu Hn']; subst.
+  destruct Hin as [Hin|Hin].
+  - inversion Hin; subst. rewrite Z.eqb_refl. reflexivity.
+  - destruct (u =? t) eqn:E; auto. apply Z.eqb_eq in E; subst. exfalso. apply Hu.
+    apply in_map_iff. exists (t, p); auto.
+Qed.
+
+(* At quiescence of a scripted run (the op, then everybody it woke, ran to their next blocking point) every
+   thread that is still inside a blocking call sleeps on a node of m_index that conflicts with its request:
+   exactly what the check's oracle ("no thread blocked while its range is free") evaluates on the implementation. *)
+Lemma rl_quiescent_proof (G : op -> Prop) cs : Forall G cs ->
+  let s := fst (run_ops init_state cs) in
+  ready s = [] /\
+  forall t p, In (t, p) (pend s) -> exists e, In e (idx s) /\ In t (e_wait e) /\ conflict p e.
+Proof.
+  intros HG s.
+  destruct (run_ops_reachable G cs init_state (reach_init G) eq_refl HG) as [Hr Hr0]. fold s in Hr, Hr0.
+  split; auto. intros t p Hin.
+  destruct (rl_waiter_woken_proof G s Hr t p Hin) as [H|(e & He & Hw)]; [rewrite Hr0 in H; destruct H|].
+  exists e. split; [exact He|]. split; [exact Hw|].
+  destruct (rl_no_stuck_waiter_proof G s Hr e t He Hw) as (q & Hq & Hc).
+  destruct (reachable_winv G s Hr) as [Hn _ _].
+  rewrite (lookup_pend_unique t p (pend s) Hn Hin) in Hq. inversion Hq; subst. exact Hc.
+Qed.
+
+Lemma find_id_found x : forall a b, ~ In (e_id x) (map e_id a) -> find_id (e_id x) (a ++ x :: b) = Some (a, x, b).
+Proof.
+  induction a as [|y a IH]; intros b Hn; cbn.
+  - rewrite Z.eqb_refl. reflexivity.
+  - cbn in Hn. destruct (e_id y =? e_id x) eqn:E; [apply Z.eqb_eq in E; tauto|].
+    rewrite IH; auto.
+Qed.
+
+(* hand-over: a thread blocked in lock() on node e, whose request shares no byte with any OTHER held range,
+   is made runnable by unlock(handle of e) and acquires its range when it resumes (whatever else is runnable) *)
+Lemma rl_handoff_proof s t0 t p a e b :
+  inv s -> winv s ->
+  idx s = a ++ e :: b -> In t (e_wait e) -> lookup_pend t (pend s) = Some p -> p_kind p = KL ->
+  Forall (fun x => nosat (e_off x) (e_len x)) (idx s) -> Forall (fun x => nonempty (e_off x) (e_len x)) (idx s) ->
+  u64 (p_off p) -> u64 (p_len p) -> nosat (p_off p) (p_len p) -> nonempty (p_off p) (p_len p) ->
+  (forall x y, In x (a ++ b) -> byte_in y x -> p_off p <= y < p_off p + p_len p -> False) ->
+  let s1 := fst (unlock_handle s t0 (e_id e)) in
+  In t (ready s1) /\
+  forall r1 r2, ready s1 = r1 ++ t :: r2 ->
+    exists s2 pre post, wake (set_ready s1 (r1 ++ r2)) t = (s2, [EvAcq t KL (nid s)]) /\
+                        idx s2 = pre ++ mkE (p_off p) (p_len p) (nid s) [] :: post /\ a ++ b = pre ++ post.
+Proof.
+  intros Hinv Hw Hl Ht Hlp Hk Hns Hne Uo Ul Nsat Nemp Hfree s1.
+  assert (Hf : find_id (e_id e) (idx s) = Some (a, e, b)).
+  { rewrite Hl. apply find_id_found. destruct Hinv as [_ _ [_ Hn]]. rewrite Hl, map_app in Hn. cbn in Hn.
+    apply NoDup_remove_2 in Hn. intros H. apply Hn. apply in_or_app; auto. }
+  assert (Hs1 : s1 = mkSt (a ++ b) (nid s) (pend s) (ready s ++ e_wait e)).
+  { unfold s1, unlock_handle. rewrite Hf. reflexivity. }
+  split. { rewrite Hs1. cbn. apply in_or_app; auto. }
+  intros r1 r2 Hr. rewrite Hs1. unfold wake. cbn [set_ready pend idx nid ready]. rewrite Hlp, Hk.
+  set (s' := mkSt (a ++ b) (nid s) (remove_pend t (pend s)) (r1 ++ r2)).
+  assert (Hinv' : inv s').
+  { pose proof (unlock_handle_inv s t0 (e_id e) s1 (snd (unlock_handle s t0 (e_id e))) Hinv) as H.
+    rewrite Hs1 in H. unfold s1 in Hs1. rewrite <- Hs1 in H. specialize (H (surjective_pairing _)).
+    rewrite Hs1 in H. destruct H as [H1 H2 H3]. split; auto. }
+  rewrite Hl in Hns, Hne.
+  assert (Hns' : Forall (fun x => nosat (e_off x) (e_len x)) (idx s')).
+  { cbn. apply Forall_app in Hns. destruct Hns as [H1 H2]. inversion H2; subst. apply Forall_app; auto. }
+  assert (Hne' : Forall (fun x => nonempty (e_off x) (e_len x)) (idx s')).
+  { cbn. apply Forall_app in Hne. destruct Hne as [H1 H2]. inversion H2; subst. apply Forall_app; auto. }
+  destruct (rl_retry_succeeds_proof s' t KL (p_off p) (p_len p) Hinv' Hns' Hne' Uo Ul Nsat Nemp) as (pre & post & Hpp & Hat).
+  { intros x y Hx. apply Hfree. exact Hx. }
+  rewrite Hat. eexists. exists pre, post. split; [reflexivity|]. split; [reflexivity|]. exact Hpp.
+Qed.
+
 (* ---------------------------------------------------------------- examples ---- *)
 (* concrete non-trivial states meeting the hypotheses of the property theorems *)
 Definition ex_ops : list op := [OTry 1 KL 0 4; OTry 2 KT 6 2; OTry 3 KL 2 4; OTry 4 KW 7 3].
@@ -391,4 +465,27 @@ Qed.
 Example ex_parked_conflicts : exists p, lookup_pend 3 (pend ex_state) = Some p /\ conflict p (mkE 0 4 0 [3]).
 Proof.
   rewrite ex_state_val. eexists. split; [reflexivity|]. unfold conflict, e_end, r_end, sat_add; cbn [p_off p_len e_off e_len]. rewrite MAX64_val. cbn. lia.
+Qed.
+
+(* the hypotheses of rl_handoff hold in ex_state for thread 3 (parked on node #0 = [0,4), wants [2,6)) *)
+Example ex_handoff :
+  In 3 (ready (fst (unlock_handle ex_state 9 0))) /\
+  forall r1 r2, ready (fst (unlock_handle ex_state 9 0)) = r1 ++ 3 :: r2 ->
+    exists s2 pre post, wake (set_ready (fst (unlock_handle ex_state 9 0)) (r1 ++ r2)) 3 = (s2, [EvAcq 3 KL (nid ex_state)]) /\
+                        idx s2 = pre ++ mkE 2 4 (nid ex_state) [] :: post /\ [] ++ [mkE 6 2 1 [4]] = pre ++ post.
+Proof.
+  apply (rl_handoff_proof ex_state 9 3 (mkP KL 2 4 0 4) [] (mkE 0 4 0 [3]) [mkE 6 2 1 [4]]).
+  - apply ex_inv.
+  - apply (reachable_winv G_strict). apply ex_reachable_strict.
+  - rewrite ex_state_val. reflexivity.
+  - left; reflexivity.
+  - rewrite ex_state_val. reflexivity.
+  - reflexivity.
+  - apply ex_retry_hyps.
+  - apply ex_retry_hyps.
+  - unfold u64; cbn; rewrite MAX64_val; lia.
+  - unfold u64; cbn; rewrite MAX64_val; lia.
+  - unfold nosat; cbn; rewrite MAX64_val; lia.
+  - unfold nonempty; cbn; lia.
+  - intros x y [<-|[]]; unfold byte_in; cbn; lia.
 Qed.
